@@ -913,4 +913,185 @@ pub struct MPMCFutSender<T> {""")]),
         return false;
     }
     seq == cur_count || past(seq, cur_count).1""")], kind='refactor'),
+
+    # ---------------------------------------------------------------- more behaviour-preserving refactors
+    V('rf-inline-reload-tail-single', None, [], [E(MQ, """                let new_tail = self.reload_tail_single(wrap_valid_tag);
+                if transaction.matches_previous(new_tail) {
+                    return Err(TrySendError::Full(val));
+                }
+            }
+            let write_cell = &mut *self.data.offset(chead);
+            let ref_cell = &*self.refs.offset(chead);
+            if !RW::check_ref(&ref_cell.refcnt) {
+                return Err(TrySendError::Full(val));
+            }
+            fence(Acquire);
+            transaction.commit_direct(1, Relaxed);""", """                let max_diff_from_head = self.tail.get_max_diff(wrap_valid_tag).expect("consumers ran over the single writer");
+                let new_tail = CountedIndex::get_previous(wrap_valid_tag, max_diff_from_head);
+                self.tail_cache.store(new_tail, Relaxed);
+                if transaction.matches_previous(new_tail) {
+                    return Err(TrySendError::Full(val));
+                }
+            }
+            let write_cell = &mut *self.data.offset(chead);
+            let ref_cell = &*self.refs.offset(chead);
+            if !RW::check_ref(&ref_cell.refcnt) {
+                return Err(TrySendError::Full(val));
+            }
+            fence(Acquire);
+            transaction.commit_direct(1, Relaxed);""")], kind='refactor'),
+    V('rf-recv-refcell-early', None, [], [E(MQ, """                let read_cell = &mut *self.data.offset(ctail);
+
+                // For any curious readers""", """                let read_cell = &mut *self.data.offset(ctail);
+                let ref_cell = &*self.refs.offset(ctail);
+
+                // For any curious readers"""), E(MQ, """                    return Err((&read_cell.wraps, TryRecvError::Empty));
+                }
+                let ref_cell = &*self.refs.offset(ctail);
+                if !is_single {""", """                    return Err((&read_cell.wraps, TryRecvError::Empty));
+                }
+                if !is_single {""")], kind='refactor'),
+    V('rf-unsubscribe-early-return', None, [], [E(MQ, """        if self.alive {
+            self.alive = false;
+            if self.reader.remove_consumer() == 1 {
+                if self
+                    .queue
+                    .tail
+                    .remove_reader(&self.reader, &self.queue.manager)
+                {
+                    self.queue.manager.signal.set_reader(SeqCst);
+                }
+            }
+            self.queue.manager.remove_token(self.token);
+            fence(SeqCst);
+            f()
+        }""", """        if !self.alive {
+            return;
+        }
+        self.alive = false;
+        let was_last = self.reader.remove_consumer() == 1;
+        if was_last {
+            let now_empty = self.queue.tail.remove_reader(&self.reader, &self.queue.manager);
+            if now_empty {
+                self.queue.manager.signal.set_reader(SeqCst);
+            }
+        }
+        self.queue.manager.remove_token(self.token);
+        fence(SeqCst);
+        f()""")], kind='refactor'),
+    V('rf-clone-recv-bind', None, [], [E(MQ, """        self.reader.dup_consumer();
+        InnerRecv {
+            queue: self.queue.clone(),
+            reader: self.reader.clone(),
+            token: self.queue.manager.get_token(),
+            alive: true,
+        }""", """        self.reader.dup_consumer();
+        let reader = self.reader.clone();
+        let token = self.queue.manager.get_token();
+        let queue = self.queue.clone();
+        InnerRecv { queue, reader, token, alive: true }""")], kind='refactor'),
+    V('rf-senddrop-keep-count', None, [], [E(MQ, """        self.queue.writers.fetch_sub(1, SeqCst);
+        fence(SeqCst);
+        self.queue.manager.remove_token(self.token);
+        self.queue.waiter.notify();""", """        let _before = self.queue.writers.fetch_sub(1, SeqCst);
+        fence(SeqCst);
+        let q = &self.queue;
+        q.manager.remove_token(self.token);
+        q.waiter.notify();""")], kind='refactor'),
+    V('rf-start-send-bind', None, [], [E(MQ, """        match self
+            .prod_wait
+            .send_or_park(|m| self.writer.try_send(m), msg)
+        {
+            Ok(_) => {""", """        let outcome = self
+            .prod_wait
+            .send_or_park(|m| self.writer.try_send(m), msg);
+        match outcome {
+            Ok(_) => {""")], kind='refactor'),
+    V('rf-futnotify-collect-then-notify', None, [], [E(MQ, """            if parked.len() > 8 {
+                for val in parked.drain(..) {
+                    val.notify();
+                }
+            } else {""", """            if parked.len() > 8 {
+                let all: Vec<Task> = parked.drain(..).collect();
+                drop(parked);
+                for val in all {
+                    val.notify();
+                }
+            } else {""")], kind='refactor'),
+    V('rf-blockingwait-loop-shape', None, [], [E(WAIT, """        loop {
+            {
+                let mut lock = self.lock.lock();
+                if check(seq, w_pos, wc) {
+                    return;
+                }
+                self.condvar.wait(&mut lock);
+            }
+            if check(seq, w_pos, wc) {
+                return;
+            }
+        }""", """        let mut lock = self.lock.lock();
+        while !check(seq, w_pos, wc) {
+            self.condvar.wait(&mut lock);
+        }""")], kind='refactor'),
+    V('rf-view-named-result', None, [], [E(MQ, """                let rval = op(rv_ref);
+                RW::drop_in_place(rv_ref);
+                ctail_attempt.commit_direct(1, Release);
+                Ok(rval)""", """                let out = op(rv_ref);
+                RW::drop_in_place(rv_ref);
+                fence(Release);
+                ctail_attempt.commit_direct(1, Relaxed);
+                Ok(out)""")], kind='refactor'),
+    V('rf-addstream-named-parts', None, [], [E(RC, """                    Ok(_) => {
+                        fence(Ordering::SeqCst);
+                        manager.free(current_ptr, 1);
+                        return new_reader;
+                    }""", """                    Ok(old) => {
+                        fence(Ordering::SeqCst);
+                        manager.free(old, 1);
+                        return new_reader;
+                    }""")], kind='refactor'),
+    V('rf-remove-token-scope-fn', None, [], [E(MEM, """        {
+            let mut inner = self.mem_manager.lock().unwrap();
+            inner.remove_token(token);
+        }""", """        let inner = self.mem_manager.lock();
+        let mut inner = inner.unwrap();
+        inner.remove_token(token);
+        drop(inner);""")], kind='refactor'),
+
+    V('mode-decided-after-position', 'C12', ['P5d'], [E(RC, """        if self.state.get() == ReaderState::Multi
+            && unsafe { (*self.meta).num_consumers.load(Ordering::Relaxed) } == 1
+        {
+            fence(Ordering::Acquire);
+            self.state.set(ReaderState::Single);
+        }
+        unsafe {
+            ReadAttempt {
+                linked: (*self.pos).pos_data.load_transaction(ord),
+                state: self.state.get(),
+            }
+        }""", """        let linked = unsafe { (*self.pos).pos_data.load_transaction(ord) };
+        if self.state.get() == ReaderState::Multi
+            && unsafe { (*self.meta).num_consumers.load(Ordering::Relaxed) } == 1
+        {
+            fence(Ordering::Acquire);
+            self.state.set(ReaderState::Single);
+        }
+        ReadAttempt {
+            linked,
+            state: self.state.get(),
+        }""")]),
+    V('valid-wrap-or-one', 'C03', ['P15'], [E('src/countedindex.rs', """    } else if val == 0 {
+        1
+    } else {
+        val.next_power_of_two()
+    }""", """    } else {
+        (val | 1).next_power_of_two()
+    }""")]),
+    V('rf-valid-wrap-max', None, [], [E('src/countedindex.rs', """    } else if val == 0 {
+        1
+    } else {
+        val.next_power_of_two()
+    }""", """    } else {
+        ::std::cmp::max(val, 1).next_power_of_two()
+    }""")], kind='refactor'),
 ]
